@@ -404,6 +404,7 @@ pub fn candidates(c: &Case) -> Vec<Case> {
             Op::PeekN { n } if *n > 0 => vec![Op::PeekN { n: n - 1 }],
             Op::SetOffset { o } if *o > 0 => vec![Op::SetOffset { o: 0 }, Op::SetOffset { o: o - 1 }],
             Op::WithOffset { o } if *o > 0 => vec![Op::WithOffset { o: 0 }, Op::WithOffset { o: o - 1 }],
+            Op::RebaseWithOffset { o } if *o > 0 => vec![Op::RebaseWithOffset { o: 0 }, Op::RebaseWithOffset { o: o - 1 }, Op::SetOffset { o: *o }],
             Op::Position { o } if *o > 0 => vec![Op::Position { o: o - 1 }],
             Op::PeekAdvance { n, k } if *n > 1 => vec![Op::PeekAdvance {
                 n: n - 1,
